@@ -420,6 +420,17 @@ func (s *session) apply(step tf.M) bool {
 		s.endBlock(step)
 	case "Calc":
 		s.calc(step)
+	case "SetMaxInterval":
+		// environment: governance changes feeds params.MaxInterval.  The parameter enters the feed list only when the
+		// list is recomputed (an input of the specification: `nf`); until then the intervals stored in the current
+		// feeds keep defining freshness.  Logged as an `Env` line: nothing of the model may change.
+		fk := s.w.App.FeedsKeeper
+		p := fk.GetParams(s.r.Ctx)
+		p.MinInterval, p.MaxInterval = 1, int64(tf.Int(step, "v", maxInterval))
+		if err := fk.SetParams(s.r.Ctx, p); err != nil {
+			panic(err)
+		}
+		s.d.W.Step("Env", tf.M{"maxInterval": int(p.MaxInterval)}, tf.M{"ok": true}, s.project())
 	default:
 		panic("unknown step " + fmt.Sprint(step))
 	}
@@ -805,6 +816,10 @@ func RandomScript(rng *rand.Rand) tf.Script {
 		if rng.Intn(20) == 0 {
 			steps = append(steps, tf.M{"e": "Jail", "who": tf.M{"role": "val", "k": 1 + rng.Intn(nval)}})
 		}
+		if rng.Intn(6) == 0 {
+			// governance changes MaxInterval below / back above the intervals of the current feeds
+			steps = append(steps, tf.M{"e": "SetMaxInterval", "v": pick(rng, []int{1, 1, 2, 3, maxInterval})})
+		}
 		for _, i := range rng.Perm(nval) {
 			if rng.Intn(20) < 17 {
 				steps = append(steps, tf.M{"e": "Submit", "who": tf.M{"role": "val", "k": i + 1}, "toff": 0,
@@ -857,6 +872,8 @@ func RandomScriptC15F(rng *rand.Rand) tf.Script {
 			steps = append(steps, tf.M{"e": "Activate", "who": who})
 		case x < 54:
 			steps = append(steps, tf.M{"e": "Jail", "who": who})
+		case x < 57:
+			steps = append(steps, tf.M{"e": "SetMaxInterval", "v": pick(rng, []int{1, 2, 3, 5, maxInterval})})
 		default:
 			if rng.Intn(3) == 0 {
 				want = randomFeeds(rng, ivs)
